@@ -298,42 +298,59 @@ def oracle(ctx, interp, Ad, A, theta, norm, spl, sym, rowsum0, base):
     Pi = sp.csr_array(interp.injection_interpolation(A, spl))
     if Pi.shape != (n, int(spl.sum())) or not np.array_equal(Pi.toarray(), np.eye(n)[:, spl == 1]):
         ctx.fail('injection/not-injection', '', dict(base, routine='injection'))
-    # local AIR: identity block on C points and (R A)[i, j] = 0 on the F pattern of row i
-    for degree in (1, 2):
-        case = dict(base, routine='local_air', degree=degree)
-        try:
-            with warnings.catch_warnings():
-                warnings.simplefilter('ignore')
-                R = sp.csr_array(interp.local_air(A, spl, theta=0.1, norm='abs', degree=degree))
-        except Exception as e:   # noqa
-            ctx.fail('local_air/raises', repr(e), case)
-            continue
-        ctx.count('oracle:air')
-        Cp = np.where(spl == 1)[0]
-        from pyamg.strength import classical_strength_of_connection
-        Cs = sp.csr_array(classical_strength_of_connection(A, theta=0.1, norm='abs'))
-        Rd = R.toarray()
-        RA = Rd @ Ad
-        scale = max(1.0, np.abs(Rd).max() * np.abs(Ad).max())
-        for r, cpt in enumerate(Cp):
-            if abs(Rd[r, cpt] - 1) > 1e-12 or any(abs(Rd[r, c]) > 0 for c in Cp if c != cpt):
-                ctx.fail('local_air/identity-block', 'row %d' % r, case)
-                break
-            # the sparsity pattern of row r as the routine defines it (strong F neighbours, distance `degree`);
-            # local_air eliminates stored zeros, so the pattern is recomputed here.  When A restricted to the
-            # pattern is singular the defining equations have no solution in general: nothing is required then.
-            n1 = [j for j in Cs.indices[Cs.indptr[cpt]:Cs.indptr[cpt + 1]] if spl[j] == 0]
-            Fpat = set(n1)
-            if degree == 2:
-                for j in n1:
-                    Fpat |= {k for k in Cs.indices[Cs.indptr[j]:Cs.indptr[j + 1]] if spl[k] == 0}
-            Fpat = sorted(int(j) for j in Fpat)
-            if any(Rd[r, j] != 0 for j in range(n) if spl[j] == 0 and j not in Fpat):
-                ctx.fail('local_air/outside-pattern', 'row %d has weights outside the strong F neighbourhood' % r, case)
-                break
-            if Fpat and _nn(np.abs(RA[r, Fpat]).max()) > 1e-8 * scale and np.linalg.cond(Ad[np.ix_(Fpat, Fpat)]) < 1e8:
-                ctx.fail('local_air/RA-not-zero', 'row %d: max |(RA)[i,j]| on the F pattern = %.3g' % (r, np.abs(RA[r, Fpat]).max()), case)
-                break
+    # local AIR: identity block on C points and (R A)[i, j] = 0 on the F pattern of row i -- for the QR and the dense-GMRES
+    # local solves (GMRES run to the size of the local system, with and without its diagonal preconditioner), for CSR
+    # input and for the same coupling pattern in 2x2 blocks (BSR)
+    from pyamg.strength import classical_strength_of_connection
+    Kb = np.array([[2.0, 0.5], [0.3, 1.5]])
+    Abd = np.kron(Ad, Kb) + np.diag(0.25 * (np.arange(2 * n) % 3))
+    for fmt_, Amat, Afull, bs_ in (('csr', A, Ad, 1), ('bsr', sp.bsr_array(Abd, blocksize=(2, 2)), Abd, 2)):
+        for degree in (1, 2):
+            for solver_, kw_ in (('qr', {}), ('gmres', dict(use_gmres=True, maxiter=0, precondition=True)),
+                                 ('gmres-noprec', dict(use_gmres=True, maxiter=0, precondition=False))):
+                if fmt_ == 'bsr' and degree == 2 and solver_ == 'gmres-noprec':
+                    continue
+                case = dict(base, routine='local_air', degree=degree, format=fmt_, local_solver=solver_)
+                try:
+                    with warnings.catch_warnings():
+                        warnings.simplefilter('ignore')
+                        R = sp.csr_array(interp.local_air(Amat, spl, theta=0.1, norm='abs', degree=degree, **kw_))
+                except Exception as e:   # noqa
+                    ctx.fail('local_air/raises', repr(e), case)
+                    continue
+                ctx.count('oracle:air/%s/%s' % (fmt_, solver_))
+                Cp = np.where(spl == 1)[0]
+                Cs = sp.csr_array(classical_strength_of_connection(Amat, theta=0.1, norm='abs'))
+                Rd = R.toarray()
+                RA = Rd @ Afull
+                scale = max(1.0, np.abs(Rd).max() * np.abs(Afull).max())
+                rtol = 1e-8 if solver_ == 'qr' else 1e-6
+
+                def blk(M_, r_, c_):
+                    return M_[r_ * bs_:(r_ + 1) * bs_, c_ * bs_:(c_ + 1) * bs_]
+                for r, cpt in enumerate(Cp):
+                    if np.abs(blk(Rd, r, cpt) - np.eye(bs_)).max() > 1e-12 or any(np.abs(blk(Rd, r, c)).max() > 0 for c in Cp if c != cpt):
+                        ctx.fail('local_air/identity-block', 'row %d' % r, case)
+                        break
+                    # the sparsity pattern of row r as the routine defines it (strong F neighbours, distance `degree`);
+                    # local_air eliminates stored zeros, so the pattern is recomputed here.  When A restricted to the
+                    # pattern is singular the defining equations have no solution in general: nothing is required then.
+                    n1 = [j for j in Cs.indices[Cs.indptr[cpt]:Cs.indptr[cpt + 1]] if spl[j] == 0]
+                    Fpat = set(n1)
+                    if degree == 2:
+                        for j in n1:
+                            Fpat |= {k for k in Cs.indices[Cs.indptr[j]:Cs.indptr[j + 1]] if spl[k] == 0}
+                    Fpat = sorted(int(j) for j in Fpat)
+                    if any(np.abs(blk(Rd, r, j)).max() != 0 for j in range(n) if spl[j] == 0 and j not in Fpat):
+                        ctx.fail('local_air/outside-pattern', 'row %d has weights outside the strong F neighbourhood' % r, case)
+                        break
+                    dofs = [j * bs_ + t for j in Fpat for t in range(bs_)]
+                    rows_ = list(range(r * bs_, (r + 1) * bs_))
+                    if Fpat and np.linalg.cond(Afull[np.ix_(dofs, dofs)]) < (1e8 if solver_ == 'qr' else 1e4) and \
+                            _nn(np.abs(RA[np.ix_(rows_, dofs)]).max()) > rtol * scale:
+                        ctx.fail('local_air/RA-not-zero' + ('/bsr-gmres-preconditioned' if (fmt_ == 'bsr' and solver_ == 'gmres') else ''),
+                                 'row %d: max |(RA)[i,j]| on the F pattern = %.3g' % (r, np.abs(RA[np.ix_(rows_, dofs)]).max()), case)
+                        break
     ctx.case(('oracle', repr(base['dense']), repr(base['splitting']), theta, norm), True)
 
 
